@@ -559,8 +559,10 @@ Proof.
   unfold recv_tail, raw_up. intros H. destruct (is_rfc _).
   - revert H. induction (channels s) as [|bd l IH]; cbn [chan_scan]; unfold raw_up; intros H.
     + destruct (rd_range b 0 (blen b)); [|discriminate]. cbn [bind] in H. inversion H. auto.
-    + destruct (rdw b 0); [|discriminate]. cbn [bind] in H. destruct (_ =? _); [|apply IH; exact H].
-      destruct (rdw b 2); [|discriminate]. cbn [bind] in H. destruct (rd_range b 4 _); [|discriminate]. cbn [bind] in H. inversion H. auto.
+    + destruct (4 <=? blen b); [|apply IH; exact H].
+      destruct (rdw b 0); [|discriminate]. cbn [bind] in H. destruct (_ =? _); [|apply IH; exact H].
+      destruct (rdw b 2) as [rl|]; [|discriminate]. cbn [bind] in H. destruct (rl <=? blen b - 4); [|apply IH; exact H].
+      destruct (rd_range b 4 _); [|discriminate]. cbn [bind] in H. inversion H. auto.
   - destruct (rd_range b 0 (blen b)); [|discriminate]. cbn [bind] in H. inversion H. auto.
 Qed.
 
